@@ -452,12 +452,59 @@ Definition obs_eqb (a b : obs) : bool :=
   && Nat.eqb (o_reports a) (o_reports b) && option_eqb Nat.eqb (o_succ a) (o_succ b)
   && store_eqb (o_store a) (o_store b).
 
+(* ---------- context cancelled during the back-off sleep ---------- *)
+(* backoff.RetryNotify: after a failed, non-final attempt it notifies, starts the timer and waits for the
+   timer or ctx.Done(); on cancellation it returns ctx.Err() and the final Report is suppressed.  An
+   operation whose context is cancelled during the sleep after [r_budget] retries behaves exactly like the
+   same operation stopped by the budget, except that the caller sees the context error, and Load does
+   not record the file in the circuit breaker (ctx.Err() != nil). *)
+Fixpoint count_perm (outs : list iout) : nat :=
+  match outs with
+  | [] => 0
+  | IErr e :: r => (if is_perm e then 1 else 0) + count_perm r
+  | _ :: r => count_perm r
+  end.
+
+Definition nonterminal_err (c : cfg) (q : req) (o : obs) : bool :=
+  match o_res o with
+  | RErr e =>
+      negb (orb (match e with EWrap => true | _ => false end)
+                (orb (andb (is_perm e) (Nat.leb (perm_attempts c) (count_perm (primary_calls (r_op q) (o_calls o)))))
+                     (andb (isstat (r_op q)) (match e with ENotEx => true | _ => false end))))
+  | _ => false
+  end.
+
+Definition run_op_c (c : cfg) (s : st) (qz : req * bool) : st * obs :=
+  let '(q, cz) := qz in
+  let '(s', o) := run_op c s q in
+  if andb cz (nonterminal_err c q o) then
+    (match r_op q with
+     | OLoad n _ _ _ => mkst (s_store s') (s_script s') (filter (fun x => negb (N.eqb x n)) (s_breaker s')) (s_noexpiry s')
+     | _ => s'
+     end,
+     mkobs RCtx (o_data o) (o_size o) (o_names o) (o_calls o) (o_reports o) (o_succ o) (o_store o))
+  else (s', o).
+
+Fixpoint run_ops_c (c : cfg) (s : st) (qs : list (req * bool)) : list obs :=
+  match qs with
+  | [] => []
+  | q :: r => let '(s', o) := run_op_c c s q in o :: run_ops_c c s' r
+  end.
+
+Fixpoint zipb (qs : list req) (zs : list bool) : list (req * bool) :=
+  match qs, zs with
+  | q :: qr, z :: zr => (q, z) :: zipb qr zr
+  | q :: qr, [] => (q, false) :: zipb qr []
+  | [], _ => []
+  end.
+
 Record case := mk {
   c_cfg : cfg;
   c_store : store;
   c_script : list fault;
   c_reqs : list req;
-  c_obs : list obs
+  c_obs : list obs;
+  c_sleepcancel : list bool   (* per request: the context is cancelled during the sleep after r_budget retries *)
 }.
 
 (* first non-zero oracle code along the sequence (stores threaded from the observations) *)
@@ -478,7 +525,8 @@ Definition check_C35 (c : case) : bool :=
 Definition check_case (c : case) : nat :=
   match check_seq (c_cfg c) (c_store c) (c_reqs c) (c_obs c) with
   | O =>
-      if list_eqb obs_eqb (c_obs c) (run_ops (c_cfg c) (mkst (c_store c) (c_script c) [] false) (c_reqs c))
+      if list_eqb obs_eqb (c_obs c)
+           (run_ops_c (c_cfg c) (mkst (c_store c) (c_script c) [] false) (zipb (c_reqs c) (c_sleepcancel c)))
       then 0 else 1
   | n => n
   end.
